@@ -299,6 +299,15 @@ func (b *Board) handleValidatorPubKeyShareMessage(ctx context.Context, peerID pe
 		return nil, false, errors.New("validator pubkey share request session ID mismatch", z.Str("peer_id", peerID.String()))
 	}
 
+	// Drop identical re-deliveries: the message does not name its validator, so a late duplicate of
+	// validator k's share would otherwise be collected as this peer's share for validator k+1.
+	// Empty shares (nodes leaving in a reshare) are identical for every validator and carry no key.
+	if share := protoMsg.GetPublicKeyShare(); len(share) > 0 &&
+		b.dedup.isDuplicate(valPubKeyShareMsg, append([]byte(peerID), share...)) {
+		log.Debug(b.logCtx, "Dropping duplicate validator pubkey share", z.Str("from", peerID.String()))
+		return nil, true, nil
+	}
+
 	vpks := ValidatorPubKeyShare{
 		PeerID:          peerID,
 		ValidatorPubKey: protoMsg.GetPublicKeyShare(),
